@@ -13,6 +13,9 @@ theorem wakeNext_regs (p : Pool) :
     q.running = p.running ∧ q.cancelledR = p.cancelledR ∧ q.ended = p.ended ∧ q.lost = p.lost := by
   simp
 
+theorem wakeNext_apis (p : Pool) :
+    (({ p with sem := p.sem.wakeNext.1 } : Pool).schedOpt p.sem.wakeNext.2).apis = p.apis := by simp
+
 theorem wakeNext_tasks (p : Pool) :
     (({ p with sem := p.sem.wakeNext.1 } : Pool).schedOpt p.sem.wakeNext.2).tasks = p.tasks := by simp
 
@@ -22,8 +25,8 @@ theorem wakeNext_inf (p : Pool) (hv : p.sem.value = .inf) (hw : p.sem.waiters = 
   unfold Sem.wakeNext
   simp [hv, hw, wakeNextL]
 
-theorem roomGranted_good {cap : Cap} (p : Pool) (m : Nat) (r : Req) (hph : PhaseOK p) (hreg : RegOK p)
-    (hgrp : GroupsOK p) (hlife : LifeOK p) (hpre : SlotPre cap p) : Good cap (p.roomGranted m r) := by
+theorem roomGranted_good {cap : Cap} {L : Bool} (p : Pool) (m : Nat) (r : Req) (hph : PhaseOK p) (hreg : RegOK p)
+    (hgrp : GroupsOK p) (hlife : LifeOK p) (hpre : SlotPre cap p) (hst : Strict L p) : Good cap L (p.roomGranted m r) := by
   unfold roomGranted
   simp only
   apply good_continueSpawner
@@ -32,7 +35,7 @@ theorem roomGranted_good {cap : Cap} (p : Pool) (m : Nat) (r : Req) (hph : Phase
     have h3 := wakeNext_tasks p
     obtain ⟨r1, r2, r3, r4⟩ := wakeNext_regs p
     refine good_createTask_afterTake _ m _ ?_ (hreg.of_eq h3 r1 r2 r3 r4) (hgrp.of_eq (by simp) (by rw [h3]))
-      (hlife.of_eq h3 r4) ?_
+      (hlife.of_eq h3 r4) ?_ (hst.of_eq r4 (wakeNext_apis p))
     · intro i tk h hn; rw [h3] at h; exact hph i tk h hn
     · cases cap with
       | fin n =>
@@ -44,7 +47,7 @@ theorem roomGranted_good {cap : Cap} (p : Pool) (m : Nat) (r : Req) (hph : Phase
         obtain ⟨v', h1, h2, _⟩ := wakeNext_effect p v hv hpos
         exact ⟨v', h1, by rw [h3]; omega⟩
       | inf => exact wakeNext_inf p hpre.1 hpre.2
-  · exact good_createTask_afterTake p m _ hph hreg hgrp hlife hpre
+  · exact good_createTask_afterTake p m _ hph hreg hgrp hlife hpre hst
 
 /-- slot conservation while a removed waiter entry may still carry a granted slot -/
 def SlotGrant (cap : Cap) (p : Pool) (st : Option WaitSt) : Prop :=
@@ -53,18 +56,19 @@ def SlotGrant (cap : Cap) (p : Pool) (st : Option WaitSt) : Prop :=
       v + heldL p.tasks + (grantsL p.sem.waiters + (if st = some .granted then 1 else 0)) = n
   | .inf => p.sem.value = .inf ∧ p.sem.waiters = []
 
-theorem roomWaitCancelled_good {cap : Cap} (p : Pool) (m : Nat) (r : Req) (st : Option WaitSt) (hph : PhaseOK p)
-    (hreg : RegOK p) (hgrp : GroupsOK p) (hlife : LifeOK p) (hsg : SlotGrant cap p st) :
-    Good cap (p.roomWaitCancelled m r st) := by
+theorem roomWaitCancelled_good {cap : Cap} {L : Bool} (p : Pool) (m : Nat) (r : Req) (st : Option WaitSt) (hph : PhaseOK p)
+    (hreg : RegOK p) (hgrp : GroupsOK p) (hlife : LifeOK p) (hsg : SlotGrant cap p st) (hst' : Strict L p) :
+    Good cap L (p.roomWaitCancelled m r st) := by
   unfold roomWaitCancelled
   simp only
-  have key : Good cap (if (st == some WaitSt.granted) = true then p.releasePool else p) := by
+  have key : Good cap L (if (st == some WaitSt.granted) = true then p.releasePool else p) := by
     split
     · rename_i h
       have hst : st = some .granted := by simpa using h
       have h3 := releasePool_tasks' p
       obtain ⟨r1, r2, r3, r4⟩ := releasePool_regs p
-      refine ⟨?_, ?_, hreg.of_eq h3 r1 r2 r3 r4, hgrp.of_eq (releasePool_groups p) (by rw [h3]), hlife.of_eq h3 r4⟩
+      refine ⟨?_, ?_, hreg.of_eq h3 r1 r2 r3 r4, hgrp.of_eq (releasePool_groups p) (by rw [h3]), hlife.of_eq h3 r4,
+        (hst'.of_eq r4 (releasePool_apis p)).1, (hst'.of_eq r4 (releasePool_apis p)).2⟩
       · cases cap with
         | fin n =>
           obtain ⟨v, hv, hs⟩ := hsg
@@ -75,7 +79,7 @@ theorem roomWaitCancelled_good {cap : Cap} (p : Pool) (m : Nat) (r : Req) (st : 
       · intro i tk h hn; rw [h3] at h; exact hph i tk h hn
     · rename_i h
       have hst : ¬ st = some .granted := by simpa using h
-      refine ⟨?_, hph, hreg, hgrp, hlife⟩
+      refine ⟨?_, hph, hreg, hgrp, hlife, hst'.1, hst'.2⟩
       cases cap with
       | fin n =>
         obtain ⟨v, hv, hs⟩ := hsg
@@ -86,7 +90,7 @@ theorem roomWaitCancelled_good {cap : Cap} (p : Pool) (m : Nat) (r : Req) (st : 
   · exact (tame_releaseMap _ m).good key
   · exact key
 
-theorem good_wakeWaitRoom {cap : Cap} (p : Pool) (m : Nat) (r : Req) (hg : Good cap p) : Good cap (p.wakeWaitRoom m r) := by
+theorem good_wakeWaitRoom {cap : Cap} {L : Bool} (p : Pool) (m : Nat) (r : Req) (hg : Good cap L p) : Good cap L (p.wakeWaitRoom m r) := by
   unfold wakeWaitRoom
   simp only
   have hrm := removeWaiterL_grants m p.sem.waiters
@@ -99,8 +103,10 @@ theorem good_wakeWaitRoom {cap : Cap} (p : Pool) (m : Nat) (r : Req) (hg : Good 
       fun x => { x with mustCancel := false }) := hg.grp.of_eq rfl rfl
   have hlife : LifeOK (({ p with sem := { p.sem with waiters := (removeWaiterL m p.sem.waiters).2 } } : Pool).modReq m
       fun x => { x with mustCancel := false }) := hg.life.of_eq rfl rfl
+  have hstr : Strict L (({ p with sem := { p.sem with waiters := (removeWaiterL m p.sem.waiters).2 } } : Pool).modReq m
+      fun x => { x with mustCancel := false }) := hg.strict
   split
-  · refine roomWaitCancelled_good _ m r _ hph hreg hgrp hlife ?_
+  · refine roomWaitCancelled_good _ m r _ hph hreg hgrp hlife ?_ hstr
     cases cap with
     | fin n =>
       obtain ⟨v, hv, hs⟩ := hg.slot
@@ -111,7 +117,7 @@ theorem good_wakeWaitRoom {cap : Cap} (p : Pool) (m : Nat) (r : Req) (hg : Good 
   · split
     · rename_i hgr
       have hst : (removeWaiterL m p.sem.waiters).1 = some .granted := by simpa using hgr
-      refine roomGranted_good _ m r hph hreg hgrp hlife ?_
+      refine roomGranted_good _ m r hph hreg hgrp hlife ?_ hstr
       cases cap with
       | fin n =>
         obtain ⟨v, hv, hs⟩ := hg.slot
@@ -121,7 +127,7 @@ theorem good_wakeWaitRoom {cap : Cap} (p : Pool) (m : Nat) (r : Req) (hg : Good 
       exact ⟨hv, by simp [modReq, hw, removeWaiterL]⟩
     · rename_i hc hgr
       have hst : ¬ (removeWaiterL m p.sem.waiters).1 = some .granted := by simpa using hgr
-      refine ⟨?_, hph, hreg, hgrp, hlife⟩
+      refine ⟨?_, hph, hreg, hgrp, hlife, hstr.1, hstr.2⟩
       cases cap with
       | fin n =>
         obtain ⟨v, hv, hs⟩ := hg.slot
@@ -130,7 +136,7 @@ theorem good_wakeWaitRoom {cap : Cap} (p : Pool) (m : Nat) (r : Req) (hg : Good 
       obtain ⟨hv, hw⟩ := hg.slot
       exact ⟨hv, by simp [modReq, hw, removeWaiterL]⟩
 
-theorem good_mapSemGranted {cap : Cap} (p : Pool) (m : Nat) (r : Req) (hg : Good cap p) : Good cap (p.mapSemGranted m r) := by
+theorem good_mapSemGranted {cap : Cap} {L : Bool} (p : Pool) (m : Nat) (r : Req) (hg : Good cap L p) : Good cap L (p.mapSemGranted m r) := by
   unfold mapSemGranted
   simp only
   have h := good_mapStartTask (p.modReq m fun x => { x with acquired := true }) m ((tame_modReq p m _).good hg)
@@ -138,7 +144,7 @@ theorem good_mapSemGranted {cap : Cap} (p : Pool) (m : Nat) (r : Req) (hg : Good
   · exact good_mapLoop m _ _ h
   · exact h
 
-theorem good_wakeWaitMapSem {cap : Cap} (p : Pool) (m : Nat) (r : Req) (hg : Good cap p) : Good cap (p.wakeWaitMapSem m r) := by
+theorem good_wakeWaitMapSem {cap : Cap} {L : Bool} (p : Pool) (m : Nat) (r : Req) (hg : Good cap L p) : Good cap L (p.wakeWaitMapSem m r) := by
   unfold wakeWaitMapSem
   simp only
   have hg0 := (tame_modReq p m (fun x => { x with mapSem := { x.mapSem with waiters := (removeWaiterL m r.mapSem.waiters).2 }, mustCancel := false })).good hg
@@ -151,7 +157,7 @@ theorem good_wakeWaitMapSem {cap : Cap} (p : Pool) (m : Nat) (r : Req) (hg : Goo
     · exact good_mapSemGranted _ m r hg0
     · exact hg0
 
-theorem good_stepMeta {cap : Cap} (p : Pool) (m : Nat) (hg : Good cap p) : Good cap (p.stepMeta m) := by
+theorem good_stepMeta {cap : Cap} {L : Bool} (p : Pool) (m : Nat) (hg : Good cap L p) : Good cap L (p.stepMeta m) := by
   unfold stepMeta
   split
   · exact hg
@@ -204,16 +210,17 @@ theorem tame_gatherStart (p : Pool) (cs re owner n) : Tame p (p.gatherStart cs r
 
 theorem tame_finishApi (p : Pool) (a o) : Tame p (p.finishApi a o) := tame_modApi p a _
 
-theorem good_flushAfter2 {cap : Cap} (p : Pool) (a o) (hg : Good cap p) : Good cap (p.flushAfter2 a o) := by
+theorem good_flushAfter2 {cap : Cap} (p : Pool) (a o) (hg : Good cap true p) : Good cap true (p.flushAfter2 a o) := by
   unfold flushAfter2
   split
   · simp only
     refine (tame_finishApi _ a _).good ?_
-    refine ⟨hg.slot, hg.phase, ?_, hg.grp.of_eq rfl rfl, hg.life.lostMono rfl (fun h => by simp [h])⟩
+    refine ⟨hg.slot, hg.phase, ?_, hg.grp.of_eq rfl rfl, hg.life.lostMono rfl (fun h => by simp [h]),
+      fun h => Bool.noConfusion h, fun h => Bool.noConfusion h⟩
     exact hg.reg.flushForget _ _ _ rfl rfl rfl rfl (by simp)
   · exact (tame_finishApi p a _).good hg
 
-theorem good_flushAfter1 {cap : Cap} (p : Pool) (a re o) (hg : Good cap p) : Good cap (p.flushAfter1 a re o) := by
+theorem good_flushAfter1 {cap : Cap} (p : Pool) (a re o) (hg : Good cap true p) : Good cap true (p.flushAfter1 a re o) := by
   unfold flushAfter1
   split
   · exact (tame_finishApi p a _).good hg
@@ -226,7 +233,7 @@ theorem good_flushAfter1 {cap : Cap} (p : Pool) (a re o) (hg : Good cap p) : Goo
     · refine Tame.good ?_ hg
       exact Tame.trans (Tame.trans (Tame.trans h1 (tame_modApi _ a _)) (tame_gatherStart _ _ _ _ _)) (tame_modApi _ a _)
 
-theorem good_flushStage1 {cap : Cap} (p : Pool) (a re) (hg : Good cap p) : Good cap (p.flushStage1 a re) := by
+theorem good_flushStage1 {cap : Cap} (p : Pool) (a re) (hg : Good cap true p) : Good cap true (p.flushStage1 a re) := by
   unfold flushStage1
   simp only
   have h1 : Tame p ({ p with reqs := p.reqs.map fun (r : Req) => if r.inRunning && r.outcome.isSome then { r with inRunning := false } else r } : Pool) :=
@@ -235,17 +242,17 @@ theorem good_flushStage1 {cap : Cap} (p : Pool) (a re) (hg : Good cap p) : Good 
   · exact good_flushAfter1 _ a re _ ((Tame.trans h1 (tame_gatherStart _ _ _ _ _)).good hg)
   · exact (Tame.trans (Tame.trans h1 (tame_gatherStart _ _ _ _ _)) (tame_modApi _ a _)).good hg
 
-theorem good_gacAfter2 {cap : Cap} (p : Pool) (a o) (hg : Good cap p) : Good cap (p.gacAfter2 a o) := by
+theorem good_gacAfter2 {cap : Cap} (p : Pool) (a o) (hg : Good cap true p) : Good cap true (p.gacAfter2 a o) := by
   unfold gacAfter2
   split
   · simp only
     refine (tame_finishApi _ a _).good ?_
     refine (tame_foldl _ _ (fun p w => tame_schedApi p w) _).good ?_
     exact ⟨hg.slot, hg.phase, hg.reg.gacClear _ rfl rfl rfl rfl rfl, hg.grp.of_eq rfl rfl,
-      hg.life.lostMono rfl (fun h => by simp [h])⟩
+      hg.life.lostMono rfl (fun h => by simp [h]), fun h => Bool.noConfusion h, fun h => Bool.noConfusion h⟩
   · exact (tame_finishApi p a _).good hg
 
-theorem good_gacAfter1 {cap : Cap} (p : Pool) (a re g) (hg : Good cap p) : Good cap (p.gacAfter1 a re g) := by
+theorem good_gacAfter1 {cap : Cap} (p : Pool) (a re g) (hg : Good cap true p) : Good cap true (p.gacAfter1 a re g) := by
   unfold gacAfter1
   simp only
   split
@@ -256,7 +263,7 @@ theorem good_gacAfter1 {cap : Cap} (p : Pool) (a re g) (hg : Good cap p) : Good 
     · exact good_gacAfter2 _ a _ ((Tame.trans h1 (tame_gatherStart _ _ _ _ _)).good hg)
     · exact (Tame.trans (Tame.trans h1 (tame_gatherStart _ _ _ _ _)) (tame_modApi _ a _)).good hg
 
-theorem good_gacStage1 {cap : Cap} (p : Pool) (a re) (hg : Good cap p) : Good cap (p.gacStage1 a re) := by
+theorem good_gacStage1 {cap : Cap} (p : Pool) (a re) (hg : Good cap true p) : Good cap true (p.gacStage1 a re) := by
   unfold gacStage1
   simp only
   split
@@ -272,28 +279,39 @@ theorem tame_untilClosedStart (p : Pool) (a) : Tame p (p.untilClosedStart a) := 
   · refine Tame.trans ?_ (tame_modApi _ a _)
     exact tame_of_eq _ _ rfl rfl
 
-theorem good_stepApi {cap : Cap} (p : Pool) (a) (hg : Good cap p) : Good cap (p.stepApi a) := by
+theorem good_stepApi {cap : Cap} {L : Bool} (p : Pool) (a) (hg : Good cap L p) : Good cap L (p.stepApi a) := by
+  cases L with
+  | false =>
+    -- no flush / gather_and_close / until_closed call exists: the handle does nothing
+    have : p.apis[a]? = none := by rw [hg.al rfl]; rfl
+    unfold stepApi
+    simp only [this]
+    exact hg
+  | true =>
   unfold stepApi
   split
   · exact hg
   · split
     · exact hg
     · simp only
-      have hg0 : Good cap (p.modApi a fun x => { x with sched := false }) := (tame_modApi p a _).good hg
+      have hg0 : Good cap true (p.modApi a fun x => { x with sched := false }) := (tame_modApi p a _).good hg
       repeat' (first | exact hg0 | exact good_flushStage1 _ _ _ hg0 | exact good_gacStage1 _ _ _ hg0
                      | exact (tame_untilClosedStart _ _).good hg0 | exact (tame_finishApi _ _ _).good hg0
                      | exact good_flushAfter1 _ _ _ _ hg0 | exact good_gacAfter1 _ _ _ _ hg0
                      | exact good_flushAfter2 _ _ _ hg0 | exact good_gacAfter2 _ _ _ hg0 | split)
 
 /-- running any handle preserves `Good` -/
-theorem good_runRef {cap : Cap} (p : Pool) (r : Ref) (hg : Good cap p) : Good cap (p.runRef r) := by
+theorem good_runRef {cap : Cap} {L : Bool} (p : Pool) (r : Ref) (hg : Good cap L p) : Good cap L (p.runRef r) := by
   cases r with
   | task t => exact good_stepTask p t hg
   | spawner m => exact good_stepMeta p m hg
   | api a => exact good_stepApi p a hg
   | gchild g i => exact (tame_gatherChildDone p g i true).good hg
 
-theorem tame_addApi (p : Pool) (k) : Tame p (p.addApi k) := tame_of_eq _ _ rfl rfl
+/-- registering a `flush` / `gather_and_close` / `until_closed` call: only in the non-strict variant -/
+theorem good_addApi {cap : Cap} (p : Pool) (k) (hg : Good cap true p) : Good cap true (p.addApi k) :=
+  ⟨hg.slot, hg.phase, hg.reg.of_eq rfl rfl rfl rfl rfl, hg.grp.of_eq rfl rfl, hg.life.of_eq rfl rfl,
+    fun h => Bool.noConfusion h, fun h => Bool.noConfusion h⟩
 
 theorem tame_doGate (p : Pool) (t o) : Tame p (p.doGate t o).1 := by
   unfold doGate
@@ -308,8 +326,15 @@ def _root_.Taskpool.Op.isSetSize : Op → Bool
   | .setSize _ => true
   | _ => false
 
-/-- every external operation other than an assignment to `pool_size` is tame -/
-theorem tame_applyOp (p : Pool) (op : Op) (hn : op.isSetSize = false) : Tame p (p.applyOp op).1 := by
+/-- the calls that run in the background of the caller: `flush`, `gather_and_close`, `until_closed` -/
+def _root_.Taskpool.Op.isAsync : Op → Bool
+  | .flush _ => true
+  | .gac _ => true
+  | .untilClosed => true
+  | _ => false
+
+/-- every external operation other than an assignment to `pool_size` and the background calls is tame -/
+theorem tame_applyOp (p : Pool) (op : Op) (hn : op.isSetSize = false) (ha : op.isAsync = false) : Tame p (p.applyOp op).1 := by
   cases op with
   | apply num group sp => exact tame_doApply _ num group sp
   | map stars items nc group sp => exact tame_doMap _ stars items nc group sp
@@ -323,10 +348,24 @@ theorem tame_applyOp (p : Pool) (op : Op) (hn : op.isSetSize = false) : Tame p (
   | unlock => exact tame_of_eq _ _ rfl rfl
   | setSize v => simp [Op.isSetSize] at hn
   | getIds names => exact Tame.refl _
-  | flush re => exact tame_addApi _ _
-  | gac re => exact tame_addApi _ _
-  | untilClosed => exact tame_addApi _ _
+  | flush re => simp [Op.isAsync] at ha
+  | gac re => simp [Op.isAsync] at ha
+  | untilClosed => simp [Op.isAsync] at ha
   | gate t o => exact tame_doGate _ t o
+
+/-- every external operation except `pool_size = …` preserves `Good`; the strict variant excludes the background calls -/
+theorem good_applyOp {cap : Cap} {L : Bool} (p : Pool) (op : Op) (hn : op.isSetSize = false)
+    (ha : L = false → op.isAsync = false) (hg : Good cap L p) : Good cap L (p.applyOp op).1 := by
+  by_cases h : op.isAsync = true
+  · cases L with
+    | false => rw [ha rfl] at h; cases h
+    | true =>
+      cases op with
+      | flush re => exact good_addApi _ _ hg
+      | gac re => exact good_addApi _ _ hg
+      | untilClosed => exact good_addApi _ _ hg
+      | _ => simp [Op.isAsync] at h
+  · exact (tame_applyOp p op hn (by simpa using h)).good hg
 
 end Pool
 end Taskpool
